@@ -289,6 +289,32 @@ T = {
     "C10f": ("C10", "R2ROperator::add returns whether the triple was newly inserted and the window processor records only those for eviction",
              "a stream item equal to a fact derived in the previous firing (add makes it window content, nobody evicts it)",
              "C10-R3 (everything loaded is recorded, on every path)", "missed: C10-R3 accepted a push that the add merely dominates; it now requires the next turn of the load loop to be reachable only through the push"),
+    "C11f": ("C11", "natural_join compares the values of a shared variable with a helper that also accepts two strings that parse to equal f64",
+             "two windows (or a window and static data) bind a shared variable to lexically different literals that are equal as f64: `21` / `21.0`, two integers beyond 2^53",
+             "C11-R3 (the comparison that decides compatibility is the identity of terms)", "first reported by C11-R3 only because the comparison had moved into a helper (wrong reason); the rule now follows "
+             "the helper and requires it to be the identity"),
+    "C12f": ("C12", "Provenance::is_saturated gets a default body that compares recover_probability images; ExpirationProvenance loses its exact `old == new` (u64 as f64)",
+             "timestamps above 2^53 and a renewal that extends the expiry by less than the f64 spacing",
+             "C12-R12 = C06-R9 (a default saturation test is a whole-tag comparison only for a one-to-one image)", "missed by C12-R1..R11; the C06 check fired through a floor on the number of "
+             "implementations (wrong reason). C06-R9 now analyses the trait's default body and the implementors that rely on it; shared with C12 as C12-R12"),
+    "C13f": ("C13", "decode_ntriples_literal treats every `\\uXXXX` escape >= 0xD800 as the high half of a surrogate pair (no upper bound)",
+             "a literal that spells a character of U+E000..U+FFFF with a 4-digit escape", "C13-R12 (surrogate tests are closed ranges)", "missed by C13-R1..R11; C13-R12 added"),
+    "C14f": ("C14", "generate_turtle writes integer-looking literals unquoted, through parse::<i64>().to_string()",
+             "a literal such as `007`, `+32`, `-0`", "C14 (generate_turtle writes a term without delimiters only for quoted triples)", None),
+    "C15f": ("C15", "Dictionary::merge recomputes next_id from the other dictionary's counter and entries and drops its own counter from the maximum",
+             "the receiver holds more identifiers than the merged dictionary, then a new term is encoded", "C15-R7 (the identifier counter never moves backwards)", "missed by C15-R1..R6; C15-R7 added"),
+    "C16f": ("C16", "the language-tag scanner of sparql_quoted_literal uses is_ascii_alphabetic for every subtag",
+             "a language tag with a digit in a later subtag: `@es-419`, `@de-CH-1996`", "C16-R12 (subtags after the first admit digits)",
+             "first reported by C16-R1 because the audited lemmas of sparql_quoted_literal are valid for its audited fingerprint only (any edit of that scanner is reported for re-audit: documented, "
+             "deliberate, and not the reason this change is wrong); C16-R12 added"),
+    "C17f": ("C17", "finalize_select pre-allocates its output with Vec::with_capacity(query.limit.unwrap_or(rows.len()))",
+             "a SELECT with LIMIT 18446744073709551615", "C17-R5 (the request does not size allocations)", "missed by C17-R1..R4; C17-R5 added"),
+    "C18f": ("C18", "the depth budget counts down from MAX_DEPTH to 0 instead of up from 0 to MAX_DEPTH inclusive: ten levels instead of eleven",
+             "a derivation that nests exactly ten rule applications", "C18-R5 (levels allowed by the bound)", "first reported by C18-R5 `deeper` because the rule knew the `depth + k` shape only (wrong reason: the "
+             "same refactoring with the root at MAX_DEPTH + 1 was reported too); the rule now computes the number of levels from root value, step and cut for both shapes"),
+    "C19f": ("C19", "one scratch copy of the facts per rule pass; every candidate is inserted, tested and removed again - also when it was accepted",
+             "one rule derives, in one round, two facts that are consistent one by one and complete a constraint body together",
+             "C19-R4 (the tested set contains every fact accepted so far)", "missed by C19-R1..R8; C19-R4 strengthened"),
     "C16b": ("C16", "sparql_aggregate returns the slice matched by the case-insensitive keyword helper instead of the canonical literal",
              "an aggregate keyword not written in upper case", "C16-R4 (keyword text never reaches the tree)",
              "missed by C16-R1..R3 (C01-R1 fired only through a floor, for the wrong reason); C16-R4 added, C01-R1 reads constant tables"),
